@@ -529,6 +529,159 @@ def readonly_decode(prog: Program) -> RuleResult:
     return res
 
 
+
+# ---------------------------------------------------------------------------
+# content flow of the unordered decoder
+
+
+def _set_atoms(expr: ast.AST, env: Dict[str, ast.AST], depth: int = 0) -> Optional[Tuple[str, ...]]:
+    """Normal form of a set-valued expression: sorted atoms of a union (`a | b`, `a.union(b)`,
+    `set(a) | b`, `frozenset(a)`); names are followed through `env`."""
+    if depth == 0:
+        expr = _subst_env(expr, env)  # closed form: names stand for their value on entry of the function
+        env = {}
+    if isinstance(expr, ast.BinOp) and isinstance(expr.op, ast.BitOr):
+        left, right = _set_atoms(expr.left, env, depth + 1), _set_atoms(expr.right, env, depth + 1)
+        if left is None or right is None:
+            return None
+        return tuple(sorted(set(left) | set(right)))
+    if isinstance(expr, ast.Call):
+        name = dotted(expr.func)
+        if name in ("set", "frozenset", "sort_synteny", "sorted", "list", "tuple") and len(expr.args) == 1 and not expr.keywords:
+            return _set_atoms(expr.args[0], env, depth + 1)
+        if isinstance(expr.func, ast.Attribute) and expr.func.attr == "union" and not expr.keywords:
+            parts = [_set_atoms(expr.func.value, env, depth + 1)] + [_set_atoms(a, env, depth + 1) for a in expr.args]
+            if any(p is None for p in parts):
+                return None
+            out: Set[str] = set()
+            for p in parts:
+                out |= set(p)  # type: ignore[arg-type]
+            return tuple(sorted(out))
+        if isinstance(expr.func, ast.Attribute) and expr.func.attr == "copy" and not expr.args:
+            return _set_atoms(expr.func.value, env, depth + 1)
+    if isinstance(expr, (ast.Name, ast.Subscript, ast.Attribute)):
+        return (" ".join(ast.unparse(expr).split()).replace("@in", ""),)
+    return None
+
+
+def _branch_env(stmts: List[ast.stmt], env: Dict[str, ast.AST]) -> Dict[str, ast.AST]:
+    """Sequential simple assignments of a straight-line block (AugAssign `x |= y` becomes `x | y`)."""
+    env = dict(env)
+    for stmt in stmts:
+        if isinstance(stmt, ast.Assign) and len(stmt.targets) == 1 and isinstance(stmt.targets[0], ast.Name):
+            env[stmt.targets[0].id] = _subst_env(stmt.value, env)
+        elif isinstance(stmt, ast.AnnAssign) and isinstance(stmt.target, ast.Name) and stmt.value is not None:
+            env[stmt.target.id] = _subst_env(stmt.value, env)
+        elif isinstance(stmt, ast.AugAssign) and isinstance(stmt.target, ast.Name):
+            env[stmt.target.id] = ast.BinOp(
+                left=env.get(stmt.target.id, ast.Name(id=stmt.target.id + "@in", ctx=ast.Load())), op=stmt.op, right=_subst_env(stmt.value, env)
+            )
+    return env
+
+
+def _subst_env(expr: ast.AST, env: Dict[str, ast.AST]) -> ast.AST:
+    import copy as _copy
+
+    class Sub(ast.NodeTransformer):
+        def visit_Name(self, node):
+            if isinstance(node.ctx, ast.Load) and node.id in env:
+                return _copy.deepcopy(env[node.id])
+            if isinstance(node.ctx, ast.Load) and not node.id.endswith("@in"):
+                return ast.Name(id=node.id + "@in", ctx=ast.Load())
+            return node
+
+        def visit_Attribute(self, node):
+            # method / attribute names are not variables; only rewrite the base
+            node.value = self.visit(node.value)
+            return node
+
+        def visit_Call(self, node):
+            if isinstance(node.func, ast.Name):
+                node.args = [self.visit(a) for a in node.args]
+                node.keywords = [ast.keyword(arg=k.arg, value=self.visit(k.value)) for k in node.keywords]
+                return node
+            return self.generic_visit(node)
+
+    return Sub().visit(_copy.deepcopy(expr))
+
+
+def decode_content_flow(prog: Program) -> RuleResult:
+    res = RuleResult(
+        "DECODE-CONTENT-FLOW",
+        "in the unordered decoder, on each branch of the kind dispatch the family set handed down to the two "
+        "recursive calls (the content an INHERIT child starts from) is the node's own content, i.e. the very set "
+        "whose sorted form is stored as the node's synteny in the yielded solution - the table priced an "
+        "inheriting child as 'parent's content plus own gains'",
+    )
+    modname = "compute.unordered_super_reconciliation"
+    mod = prog.module(modname)
+    found = 0
+    for dmod, dmodname, fn, _has_table in decoders(prog):
+        if dmodname != modname:
+            continue
+        params = func_params(fn)
+        # the inherited-content parameter: annotated with an (optional) unordered synteny, not a dict of them
+        inherited = None
+        for arg in fn.args.args:  # type: ignore[attr-defined]
+            ann = ast.unparse(arg.annotation) if arg.annotation is not None else ""
+            if "UnorderedSynteny" in ann and "Dict" not in ann and "Mapping" not in ann:
+                inherited = arg.arg
+        if inherited is None:
+            raise AnalysisError(f"{fn.name}: inherited-content parameter not recognised")
+        idx = params.index(inherited)
+        # the kind dispatch: first top-level `if` that binds names
+        dispatch = next((st for st in fn.body if isinstance(st, ast.If) and st.orelse), None)  # type: ignore[attr-defined]
+        if dispatch is None:
+            raise AnalysisError(f"{fn.name}: kind dispatch (if/else at the top of the decoder) not recognised")
+        pre = _branch_env([st for st in fn.body[: fn.body.index(dispatch)]], {})  # type: ignore[attr-defined]
+        obj = _object_param(fn)
+        # content stored for the node in the yielded outputs
+        stored: List[ast.AST] = []
+        for y in walk_no_nested(fn):
+            if isinstance(y, ast.Yield) and isinstance(y.value, ast.Call) and _output_class(prog, mod, y.value):
+                fields = _ctor_fields(prog, mod, y.value)
+                syn = fields.get("syntenies")
+                if isinstance(syn, ast.Dict):
+                    for k, v in zip(syn.keys, syn.values):
+                        if k is not None and dotted(k) == obj:
+                            stored.append(v)
+        if not stored:
+            raise AnalysisError(f"{fn.name}: no `syntenies={{<node>: ...}}` entry found in the yielded outputs")
+        rec_calls = _self_calls(fn)
+        for label, block in (("if", dispatch.body), ("else", dispatch.orelse)):
+            env = _branch_env(block, pre)
+            found += 1
+            construct = f"{modname}:{fn.name}/content-flow[{label}: {short(dispatch.test, 40)}]"
+            own = {_set_atoms(v, env) for v in stored}
+            if None in own or len(own) != 1:
+                raise AnalysisError(f"{fn.name}: the node's stored content is not a recognisable set expression on the {label} branch")
+            own_atoms = next(iter(own))
+            bad = []
+            for call in rec_calls:
+                passed = call.args[idx] if len(call.args) > idx else kwarg(call, inherited)
+                if passed is None:
+                    raise AnalysisError(f"{fn.name}: recursive call does not pass `{inherited}` positionally or by keyword")
+                got = _set_atoms(passed, env)
+                if got is None:
+                    raise AnalysisError(f"{fn.name}: `{short(passed)}` handed down is not a recognisable set expression")
+                if got != own_atoms:
+                    bad.append((call, got))
+            if bad:
+                call, got = bad[0]
+                res.fail(
+                    construct,
+                    f"on this branch the node's own content is {{{' | '.join(own_atoms)}}} but the recursive calls "
+                    f"hand down {{{' | '.join(got)}}} as `{inherited}`: an inheriting child is rebuilt from a set "
+                    "that is not its parent's content",
+                    mod,
+                    call,
+                )
+            else:
+                res.ok(construct, f"children inherit {{{' | '.join(own_atoms)}}} = the node's stored content ({len(rec_calls)} recursive calls)")
+    if found < 2:
+        raise AnalysisError("DECODE-CONTENT-FLOW: the unordered decoder was not found")
+    return res
+
 # ---------------------------------------------------------------------------
 
 
@@ -1280,4 +1433,5 @@ RULES = {
     "RESULT-SCOPE": result_scope,
     "TRAVERSAL": traversal,
     "EVENT-EXHAUSTIVE": event_exhaustive,
+    "DECODE-CONTENT-FLOW": decode_content_flow,
 }
